@@ -98,8 +98,9 @@ package types
 //@ pred heq(x, y) = forall(b, 0, 32, x[b] == y[b])
 //@ func (*AuthPool).RemoveLeftMostPairedValue
 //@   props C24
-//@   requires recv: a != nil && len(*a) < 4294967296
+//@   requires recv: a != nil
 //@   ghost k int
+//@   ensures shrink: len(*a) <= len(old(*a)) && len(old(*a)) - len(*a) <= 1
 //@   ensures absent: forall(i, 0, len(old(*a)), !heq(old((*a)[i]), h)) ==> len(*a) == len(old(*a)) && forall(i, 0, len(old(*a)), heq((*a)[i], old((*a)[i])))
 //@   ensures leftmost: (0 <= k && k < len(old(*a)) && heq(old((*a)[k]), h) && forall(i, 0, k, !heq(old((*a)[i]), h))) ==> len(*a) == len(old(*a))-1 && forall(i, 0, k, heq((*a)[i], old((*a)[i]))) && forall(i, k, len(old(*a))-1, heq((*a)[i], old((*a)[i+1])))
 //@   ensures inplace: samestart(*a, old(*a))
